@@ -250,7 +250,10 @@ def classify_failure(r):
     if r["status"] == "failed" and fc:
         return "tool", fc
     if r["status"] == "failed":
-        # terse mode prints no Failed Checks line for e.g. failed unwinding only in summary
+        # FAILED without a single failed check (`** 0 of N failed`) is CBMC giving up (memory, crash, unsupported
+        # construct): undecided, never an alarm
+        if re.search(r"\*\* 0 of \d+ failed", r.get("raw", "")) or not fc:
+            return "tool", ["verification FAILED with 0 failed checks (solver/resource limit)"]
         return "semantic", ["(no failed-check line captured; see log)"]
     return r["status"], []
 
